@@ -286,6 +286,43 @@ def rule_r9(ctx):
         raise AnalysisBroken("only %d exhaustive list scans found in the protocols" % n)
 
 
+# ---------------------------------------------------------------------------
+# R10: the resend timer is interrupted only by teardown
+
+
+def rule_r10(ctx):
+    r = ctx.rule("C12.R10", "T10", "the resend timer is interrupted only by teardown: req0_retry_cb takes a failed result of its aio as "
+                 "'the socket is going away' and returns without re-arming (retry_active stays set, so nothing starts the timer "
+                 "again); therefore nni_aio_abort / nni_aio_cancel / nni_aio_close / nni_aio_stop on req0_sock.retry_aio are "
+                 "called only from the socket's close / fini path -- an option handler that 'wakes' the timer to apply a new "
+                 "tick ends time-based resending for good", floor=1)
+    prog = ctx.prog
+    teardown = set()
+    for slot in ("nni_proto_sock_ops.sock_close", "nni_proto_sock_ops.sock_fini"):
+        teardown |= {f.name for f in prog.slot_fns(slot)}
+    n = 0
+    for f in prog.fns_in("reqrep0/req.c"):
+        if f.cfg_failed:
+            continue
+        for c in f.calls(("nni_aio_abort", "nni_aio_cancel", "nni_aio_close", "nni_aio_stop", "nng_aio_cancel", "nng_aio_abort")):
+            a0 = f.expand(c.node["args"][0]) if c.node["args"] else None
+            if a0 is None or last_field(a0) != "req0_sock.retry_aio":
+                continue
+            n += 1
+            if f.name in teardown:
+                r.ob(f, "%s(&s->retry_aio) in the socket's teardown" % c.node["fn"])
+            else:
+                ctx.fail(r, f, "resend timer interrupted outside teardown", c.line,
+                         "%s calls %s on the resend timer (line %s): req0_retry_cb sees the failed result, returns without "
+                         "re-arming and leaves retry_active set -- no request of this socket is retransmitted on its resend time "
+                         "any more" % (f.name, c.node["fn"], c.line))
+    cb = prog.need("req0_retry_cb", "reqrep0/req.c")
+    if not any(True for _ in cb.calls("nni_aio_result")):
+        raise AnalysisBroken("req0_retry_cb no longer tests the result of its aio (the premise of this rule)")
+    if n < 1:
+        raise AnalysisBroken("no stop / abort of req0_sock.retry_aio found (the teardown had one)")
+
+
 def walk_global(g):
     import json as _j
     stack = [g]
@@ -419,3 +456,4 @@ def run(ctx):
     ctx.guard(rule_r7)
     ctx.guard(rule_r8)
     ctx.guard(rule_r9)
+    ctx.guard(rule_r10)
